@@ -89,6 +89,11 @@ pub fn check_program(ctx: &mut Ctx, src: &str) {
     // reducts on the evaluation trace (only meaningful when the run terminates: a diverging
     // program has no normal form and unify may legitimately not return)
     let terminated = matches!(obs.run, Run::Value { .. });
+    // From here on the program is known to evaluate to a value within the step budget: nothing in
+    // it can make normal-order normalisation diverge or nest millions of frames deep, so a worker
+    // death (stack exhaustion) below is the normaliser's or the unifier's doing. The flag travels
+    // through the progress file.
+    ctx.set_flag(if terminated { 1 } else { 0 });
     if terminated {
         let mut k = 0;
         for rd in &obs.trace {
@@ -147,6 +152,7 @@ pub fn check_program(ctx: &mut Ctx, src: &str) {
             }
         }
     }
+    ctx.set_flag(0);
 }
 
 // (3): pairs of hole-free well-typed terms of the same type
@@ -301,6 +307,7 @@ impl Prop for C06P {
         p.floor_evaluations = 8_000;
         p.floor_nontrivial = 4_000;
         p.case_timeout_s = 8;
+        p.flagged_death_is_violation = true;
         p
     }
     fn run_case(&self, ctx: &mut Ctx, section: &str, idx: u64) {
